@@ -336,12 +336,15 @@ out = {"fresh_flag": 1 if fresh_flag else 0, "gate_fns": gate_fns,
                           pub.disable_experimental_features is ex.disable_experimental_features],
        "histories": []}
 
+_tree = _ast.parse(PROG)
+_SOURCES = {n.name: "@guppy\n" + _ast.get_source_segment(PROG, n) for n in _tree.body if isinstance(n, _ast.FunctionDef)}
+
 # ---- accept/reject table: every program, flag off and on ---------------------------------
 table = []
 dyn = {}
 for gfn, progs in PROGRAMS.items():
     for p in progs + ["f_plain"]:
-        row = {"gate": gfn, "prog": p}
+        row = {"gate": gfn, "prog": p, "source": _SOURCES.get(p, "")}
         for en in (0, 1):
             setattr(ex, FLAG, bool(en))
             calls.clear()
